@@ -464,7 +464,7 @@ theorem run_received (own : String) (s : St) (ops : List Op) :
 /-! ### acknowledgements -/
 
 def Out.isSentResult : Out → Bool
-  | .sentResult _ => true
+  | .sentResult _ _ => true
   | _ => false
 
 theorem itemSignal_no_result (e : Entries) (it : Item) : (itemSignal e it).filter Out.isSentResult = [] := by
